@@ -47,6 +47,10 @@ class Env:
             # a key function that is not injective: unequal items (0, 3, 6 / 1, 4 / ...) share a key, and both a
             # falsy item (0) and a falsy key (0) occur
             self.keyfn_real = make_callback(faults, "keyfn", lambda i: i % 3)
+        if universe == "kitem_attrkey":
+            # keyed objects with an attribute-reading key function: applied to anything that is not an item (an absent
+            # key, say) it raises AttributeError
+            self.keyfn_real = make_callback(faults, "keyfn", lambda i: i.k)
         if universe == "kitem_typed":
             self.ctor = K[self.KItem, str]
         elif universe == "str_typed":
@@ -121,6 +125,8 @@ class Env:
                 if not isinstance(item, tuple) or not item:
                     return False
             if u == "mod_keyfn" and (isinstance(item, bool) or not isinstance(item, int)):
+                return False
+            if u == "kitem_attrkey" and type(item).__name__ != "KItem":
                 return False
             hash(self.key(item))
             return True
@@ -234,6 +240,8 @@ class C13(Check):
             op["i"] = idx()
         elif name == "getitem_slice":
             op["s"] = [src.choice([None, 0, 1, -1, -2]), src.choice([None, 1, 2, -1, 9]), src.choice([None, None, 2, -1])]
+            if src.chance(0.05):
+                op["chain"] = 1100  # ... and the result is copied / extended that many times over (a sliding window)
         elif name in ("getitem_key", "delitem_key", "get", "index_for_key"):
             op["k"] = a_key()
         elif name == "setitem_idx":
@@ -703,6 +711,20 @@ class C13(Check):
                     mm = self.observe_mismatch(env, got, list(want))
                     if mm:
                         ctx.violate(dict(sig, invariant="slice_reads_agree_with_model"), {"op": op, "mismatch": mm}, idx)
+                    elif op.get("chain"):
+                        # a plain list can be sliced and concatenated for ever: so can the containers derived from this one
+                        env.faults.begin(None)
+                        try:
+                            r = got
+                            for i in range(op["chain"]):
+                                r = r[:] if i % 7 else r + []
+                            mm = self.observe_mismatch(env, r, list(want))
+                            if mm:
+                                ctx.violate(dict(sig, invariant="slice_reads_agree_with_model", generation=op["chain"]),
+                                            {"op": op, "mismatch": mm}, idx)
+                        except Exception as e:  # noqa: BLE001  (RecursionError included)
+                            ctx.violate(dict(sig, invariant="derived_container_usable", exc=type(e).__name__),
+                                        {"op": op, "msg": strip_addr(str(e))[:120]}, idx)
             elif name in ("getitem_idx", "getitem_key", "get", "pop", "pop_idx"):
                 if got is not want and not (isinstance(want, (int, str)) and got == want and type(got) is type(want)):
                     ctx.violate(dict(sig, invariant="result_value"), {"op": op, "got": strip_addr(repr(got))[:120],
